@@ -1,6 +1,6 @@
 (* Labelled transition systems of threads: Go channels, sync.Once, schedules, and a reflective
    explorer with its soundness lemma.  Generic part; the agent's teardown system is Model/Teardown.v. *)
-From Coq Require Import NArith String List Bool Arith.
+From Coq Require Import NArith String List Bool Arith FMapPositive.
 Import ListNotations.
 
 (* ------------------------------------------------------------------ outcome of one atomic step *)
@@ -114,63 +114,104 @@ Section Sys.
 
   (* ---------------------------------------------------------------- reflective explorer *)
   (* a boolean equality that is sound (true -> equal); completeness is not needed: a state that is
-     not recognised is merely explored twice *)
+     not recognised is merely explored twice.  `key` is any hash: the visited set is a map from keys
+     to buckets, correctness does not depend on the choice. *)
   Variable eqb : St -> St -> bool.
   Hypothesis eqb_sound : forall a b, eqb a b = true -> a = b.
-  Definition mem (s : St) (l : list St) : bool := existsb (eqb s) l.
-  Lemma mem_in s l : mem s l = true -> In s l.
-  Proof.
-    unfold mem. intros H. apply existsb_exists in H. destruct H as (x & Hx & He).
-    apply eqb_sound in He. subst x. exact Hx.
-  Qed.
+  Variable key : St -> positive.
   Variable labels : St -> list Lbl.     (* the labels to try in a state; must cover the enabled ones *)
   Variable bad : St -> bool.
+
+  Definition sset := PositiveMap.t (list St).
+  Definition bucket (k : positive) (m : sset) : list St :=
+    match PositiveMap.find k m with Some l => l | None => [] end.
+  Definition smem (s : St) (m : sset) : bool := existsb (eqb s) (bucket (key s) m).
+  Definition sadd (s : St) (m : sset) : sset := PositiveMap.add (key s) (s :: bucket (key s) m) m.
+  Definition InS (s : St) (m : sset) : Prop := exists k, In s (bucket k m).
+  Definition to_list (m : sset) : list St := flat_map snd (PositiveMap.elements m).
+
+  Lemma smem_in s m : smem s m = true -> InS s m.
+  Proof.
+    unfold smem. intros H. apply existsb_exists in H. destruct H as (x & Hx & He).
+    apply eqb_sound in He. subst x. exists (key s). exact Hx.
+  Qed.
+  Lemma sadd_same s m : InS s (sadd s m).
+  Proof. exists (key s). unfold sadd, bucket at 1. rewrite PositiveMap.gss. left. reflexivity. Qed.
+  Lemma sadd_other a s m : InS a m -> InS a (sadd s m).
+  Proof.
+    intros [k Hk]. exists k. unfold sadd, bucket at 1.
+    destruct (Pos.eq_dec k (key s)) as [->|Hne].
+    - rewrite PositiveMap.gss. right. exact Hk.
+    - rewrite PositiveMap.gso by exact Hne. exact Hk.
+  Qed.
+  Lemma sadd_inv a s m : InS a (sadd s m) -> a = s \/ InS a m.
+  Proof.
+    intros [k Hk]. unfold sadd, bucket at 1 in Hk.
+    destruct (Pos.eq_dec k (key s)) as [->|Hne].
+    - rewrite PositiveMap.gss in Hk. destruct Hk as [<-|Hk]; [left; reflexivity|right; exists (key s); exact Hk].
+    - rewrite PositiveMap.gso in Hk by exact Hne. right. exists k. exact Hk.
+  Qed.
+  Lemma empty_none a : ~ InS a (PositiveMap.empty _).
+  Proof. intros [k Hk]. unfold bucket in Hk. rewrite PositiveMap.gempty in Hk. exact Hk. Qed.
+  Lemma to_list_in a m : In a (to_list m) <-> InS a m.
+  Proof.
+    unfold to_list, InS, bucket. rewrite in_flat_map. split.
+    - intros ([k l] & H1 & H2). apply PositiveMap.elements_complete in H1. exists k. rewrite H1. exact H2.
+    - intros [k Hk]. destruct (PositiveMap.find k m) as [l|] eqn:E; [|destruct Hk].
+      exists (k, l). split; [apply PositiveMap.elements_correct; exact E | exact Hk].
+  Qed.
 
   Definition succs (s : St) : list St :=
     flat_map (fun l => match step s l with Some s' => [s'] | None => [] end) (labels s).
 
   Inductive verdict := Safe (seen : list St) | Unsafe (s : St) | OutOfFuel.
 
-  Fixpoint explore (fuel : nat) (todo seen : list St) : verdict :=
+  Fixpoint explore_set (fuel : nat) (todo : list St) (seen : sset) : verdict :=
     match fuel with
     | O => OutOfFuel
     | S f =>
       match todo with
-      | [] => Safe seen
+      | [] => Safe (to_list seen)
       | s :: rest =>
-        if mem s seen then explore f rest seen
+        if smem s seen then explore_set f rest seen
         else if bad s then Unsafe s
-        else explore f (succs s ++ rest) (s :: seen)
+        else explore_set f (succs s ++ rest) (sadd s seen)
       end
     end.
+  Definition explore (fuel : nat) (s0 : St) : verdict := explore_set fuel [s0] (PositiveMap.empty _).
 
-  Definition closed_set (todo seen : list St) : Prop :=
-    (forall s, In s seen -> bad s = false) /\
-    (forall s s', In s seen -> In s' (succs s) -> In s' seen \/ In s' todo).
+  Definition closed_set (todo : list St) (seen : St -> Prop) : Prop :=
+    (forall s, seen s -> bad s = false) /\
+    (forall s s', seen s -> In s' (succs s) -> seen s' \/ In s' todo).
 
   Lemma explore_sound fuel : forall todo seen final,
-    closed_set todo seen -> explore fuel todo seen = Safe final ->
-    closed_set [] final /\ (forall s, In s seen \/ In s todo -> In s final).
+    closed_set todo (fun s => InS s seen) -> explore_set fuel todo seen = Safe final ->
+    closed_set [] (fun s => In s final) /\ (forall s, InS s seen \/ In s todo -> In s final).
   Proof.
     induction fuel as [|f IH]; intros todo seen final Hc H; cbn in H; [discriminate|].
     destruct todo as [|s rest].
     - injection H as <-. split.
-      + destruct Hc as [H1 H2]. split; [exact H1|]. intros a b Ha Hb. destruct (H2 a b Ha Hb); auto.
-      + intros a [Ha|[]]; exact Ha.
-    - destruct (mem s seen) eqn:Hm.
-      + pose proof (mem_in _ _ Hm) as Hin. apply IH in H.
+      + destruct Hc as [H1 H2]. split.
+        * intros a Ha. apply H1. apply to_list_in. exact Ha.
+        * intros a b Ha Hb. apply to_list_in in Ha. destruct (H2 a b Ha Hb) as [Hs|[]].
+          left. apply to_list_in. exact Hs.
+      + intros a [Ha|[]]. apply to_list_in. exact Ha.
+    - destruct (smem s seen) eqn:Hm.
+      + pose proof (smem_in _ _ Hm) as Hin. apply IH in H.
         * destruct H as [H1 H2]. split; [exact H1|]. intros a [Ha|[<-|Ha]]; apply H2; auto.
         * destruct Hc as [H1 H2]. split; [exact H1|]. intros a b Ha Hb.
           destruct (H2 a b Ha Hb) as [|[<-|]]; auto.
       + destruct (bad s) eqn:Eb; [discriminate|].
         apply IH in H.
         * destruct H as [H1 H2]. split; [exact H1|].
-          intros a [Ha|[<-|Ha]]; apply H2; [left; right; exact Ha | left; left; reflexivity | right; apply in_or_app; right; exact Ha].
+          intros a [Ha|[<-|Ha]]; apply H2;
+            [left; apply sadd_other; exact Ha | left; apply sadd_same | right; apply in_or_app; right; exact Ha].
         * destruct Hc as [H1 H2]. split.
-          -- intros a [<-|Ha]; [exact Eb | apply H1; exact Ha].
-          -- intros a b [<-|Ha] Hb.
+          -- intros a Ha. apply sadd_inv in Ha. destruct Ha as [->|Ha]; [exact Eb | apply H1; exact Ha].
+          -- intros a b Ha Hb. apply sadd_inv in Ha. destruct Ha as [->|Ha].
              ++ right. apply in_or_app. left. exact Hb.
-             ++ destruct (H2 a b Ha Hb) as [|[<-|]]; [left; right; assumption | left; left; reflexivity | right; apply in_or_app; right; assumption].
+             ++ destruct (H2 a b Ha Hb) as [Hs|[<-|Hs]];
+                  [left; apply sadd_other; exact Hs | left; apply sadd_same | right; apply in_or_app; right; exact Hs].
   Qed.
 
   Hypothesis labels_cover : forall s l s', step s l = Some s' -> In l (labels s).
@@ -184,11 +225,11 @@ Section Sys.
   (* the theorem used by the bounded statements: if the explorer answers Safe, every state reachable
      by ANY schedule is in the returned list and is not bad *)
   Theorem explore_safe fuel s0 final :
-    explore fuel [s0] [] = Safe final ->
+    explore fuel s0 = Safe final ->
     forall s, reach s0 s -> In s final /\ bad s = false.
   Proof.
     intros H. apply explore_sound in H.
-    2:{ split; [intros ? []|intros ? ? []]. }
+    2:{ split; [intros ? Hs; destruct (empty_none _ Hs) | intros ? ? Hs; destruct (empty_none _ Hs)]. }
     destruct H as [[H1 H2] H3].
     assert (G : forall s, reach s0 s -> In s final).
     { induction 1 as [|s l s' _ IH Hs]; [apply H3; right; left; reflexivity|].
@@ -197,16 +238,17 @@ Section Sys.
   Qed.
 
   (* ---------------------------------------------------------------- bounded termination by levels *)
-  Fixpoint dedup (l : list St) : list St :=
-    match l with
-    | [] => []
-    | x :: r => if mem x r then dedup r else x :: dedup r
-    end.
+  Definition dedup (l : list St) : list St :=
+    to_list (fold_right (fun s m => if smem s m then m else sadd s m) (PositiveMap.empty _) l).
   Lemma dedup_in x l : In x (dedup l) <-> In x l.
   Proof.
-    induction l as [|y r IH]; cbn; [tauto|].
-    destruct (mem y r) eqn:Hm; cbn; rewrite IH; [|tauto].
-    apply mem_in in Hm. split; [auto|intros [<-|]; auto].
+    unfold dedup. rewrite to_list_in. induction l as [|y r IH]; cbn.
+    - split; [intros H; destruct (empty_none _ H)|intros []].
+    - set (m := fold_right _ _ r) in *. destruct (smem y m) eqn:Hm.
+      + rewrite IH. split; [auto|]. intros [<-|H]; [|exact H]. apply IH. apply smem_in. exact Hm.
+      + split.
+        * intros H. apply sadd_inv in H. destruct H as [->|H]; [left; reflexivity|right; apply IH; exact H].
+        * intros [<-|H]; [apply sadd_same | apply sadd_other; apply IH; exact H].
   Qed.
 
   Fixpoint level (k : nat) (s0 : St) : list St :=
